@@ -92,6 +92,17 @@ def keys_in_order(text):
 def roundtrip_ok(o, cls, expect_order=None):
     """every option set: parse back (no version named) gives the same class and an equal object, re-serialization is byte identical, all texts
     denote the same JSON value up to omitted defaulted optionals, pretty output lists top-level properties in specification order"""
+    # the other documented ways to the same text and back: str(), serialize to a file object, parse from a file object
+    import io
+    from stix2.serialization import fp_serialize, serialize as _serialize
+    plain = o.serialize()
+    buf = io.StringIO()
+    fp_serialize(o, buf)
+    if buf.getvalue() != plain or _serialize(o) != plain or str(o) != plain:
+        return ("entry points disagree", {})
+    via_file = stix2.parse(io.StringIO(plain), allow_custom=True)
+    if type(via_file) is not cls or via_file != o:
+        return ("parse from a file object", {})
     ref = None
     for opts in OPTION_SETS:
         text = o.serialize(**opts)
